@@ -174,6 +174,11 @@ pub struct Spec {
     /// does not count it; it must not be counted as fee either.
     #[serde(default)]
     pub donation: Option<u32>,
+    /// Shelley family: pool registration certificates (operator hash byte, cost) placed after the stake certificates.
+    /// For an operator that is already registered this is a re-registration: no deposit, the parameters become the
+    /// pool's future parameters.
+    #[serde(default)]
+    pub pool_updates: Vec<(u8, u64)>,
 }
 
 #[derive(Debug, Clone)]
@@ -643,6 +648,20 @@ pub fn forge_with(spec: &Spec, tw: &Tweaks) -> Result<Forged, String> {
             } else {
                 refunds += KEY_DEPOSIT as u128;
             }
+        }
+        for (op, cost) in &spec.pool_updates {
+            cert_nodes.push(cx::array(vec![
+                cx::uint(3),
+                cx::bytes(&[*op; 28]),
+                cx::bytes(&[*op; 32]),
+                cx::uint(1_000 + *cost % 1_000),
+                cx::uint(*cost),
+                cx::tag(30, cx::array(vec![cx::uint(1), cx::uint(20)])),
+                cx::bytes(&[0xe1; 29]),
+                cx::array(vec![cx::bytes(&[*op; 28])]),
+                cx::array(vec![]),
+                cx::null(),
+            ]));
         }
     }
     // ---- body builder (fee and change as fixed-width integers so the size does not depend on them) ----
